@@ -1,0 +1,15 @@
+//go:build verif
+
+// Contracts for deductive verification (comment-only; read by /verif/govc, never compiled into the product).
+
+package the
+
+// ---------------------------------------------------------------------------------------------------------
+// C19: at shutdown everything already accepted is flushed: every writer in the registry is closed (Close is what
+// flushes the backlog) before the registry forgets it.
+//@ func ClearEventWriters()
+//@   property C19
+//@   ghostvar closed map[event.Writer]bool = empty
+//@   on call .Close : closed[recv] = true
+//@   loop 1 invariant forall k topic.Topic :: #visited[k] ==> closed[writers[k]]
+//@   on call builtin.clear : assert forall k topic.Topic :: k in writers ==> closed[writers[k]]
